@@ -70,6 +70,29 @@ Theorem C04_ext_map_replaced : forall (F : fixes), dialogue_repaired F ->
 Proof. exact dial_ext. Qed.
 Print Assumptions C04_ext_map_replaced.
 
+(* The ESMTP parameters.  In the model the parameter lists of MAIL and RCPT (mail_params, rcpt_params) are functions of
+   the client's extension map and the configured DSN options - the address text is no argument of theirs - and for
+   ALL addresses and ALL advertised sets every parameter sent is covered by the set the map was taken from; with a
+   nil map (HELO fallback) there is none.  T1: in the source the guard of every parameter is exactly the lookup of its
+   extension (plus "DSN option configured" for RET= / NOTIFY=). *)
+Theorem C04_source_param_guards :
+  VerifGen.Gen.param_guards =
+    [(bs " BODY=8BITMIME", bs "_, ok := c.ext[""8BITMIME""]; ok");
+     (bs " SMTPUTF8", bs "_, ok := c.ext[""SMTPUTF8""]; ok");
+     (bs " RET=%s", bs "_, ok := c.ext[""DSN""]; ok && c.dsnmrtype != """"");
+     (bs "RCPT TO:<%s> NOTIFY=%s", bs "_, ok := c.ext[""DSN""]; ok && c.dsnrntype != """"")].
+Proof. exact gen_param_guards. Qed.
+Print Assumptions C04_source_param_guards.
+
+Theorem C04_params_from_advertised : forall X (c : cli) (w : world) (e : list ext) (from to : bytes),
+  (forall l, c_ext c = Some l -> l = e) ->
+  do_mail X from (c, w) = do_cmd (x_mail X) (CMail from (mail_params c)) (c, w) /\
+  do_rcpt X to (c, w) = do_cmd (x_rcpt X) (CRcpt to (rcpt_params c)) (c, w) /\
+  forallb (mail_param_ok e) (mail_params c) = true /\ forallb (rcpt_param_ok e) (rcpt_params c) = true /\
+  (c_ext c = None -> mail_params c = [] /\ rcpt_params c = []).
+Proof. exact params_from_advertised. Qed.
+Print Assumptions C04_params_from_advertised.
+
 (* Capabilities the code never consults are inert.  T1: the list of EHLO keywords the code looks up; theorem: for every
    capability set (before and inside TLS), removing every keyword outside that list - PIPELINING, SIZE, CHUNKING,
    unknown ones ... - changes nothing a run shows: returned error, per-message results, trace (commands, parameters,
